@@ -184,6 +184,13 @@ func checkC06(c *hx.Ctx) {
 			if i%4 == 1 {
 				// the same instant spelled with another UTC offset
 				off := hx.Pick(r, []int{300, -300, 330, -720, 840, 1})
+				// the same second with a fraction (what JavaScript's toISOString produces): operations anchored in the NEXT second are
+				// not part of that version
+				rmN, errN := SUTResolve(pc, u.Suffix, H, nil, document.WithVersionTime(time.Unix(int64(T), 750000000).UTC().Format(time.RFC3339Nano)))
+				if kN := fullKey(rmN, errN); kN != kF {
+					c.Violation(fmt.Sprintf("C06 version time %d.750 resolves differently from version time %d: [%s]\n   whole second: %s\n   with fraction: %s", T, T, histString(H), kF, kN), replay)
+					return
+				}
 				rmZ, errZ := SUTResolve(pc, u.Suffix, H, nil, document.WithVersionTime(rfc3339In(T, off)))
 				if kZ := fullKey(rmZ, errZ); kZ != kF {
 					replay["spelling"], replay["utc_spelling"] = rfc3339In(T, off), rfc3339(T)
@@ -263,7 +270,8 @@ func checkC06(c *hx.Ctx) {
 			cstore := hx.NewOpStore()
 			cstore.Set(u.Suffix, ToAnchored(u.Suffix, pubOps))
 			cstore.GetHook = func() { runtime.Gosched(); time.Sleep(20 * time.Microsecond) }
-			proc := processor.New("verif", cstore, pc)
+			cbc := &budgetClient{inner: pc, budget: int64(60) * int64(4*len(pubOps)+16)}
+			proc := processor.New("verif", cstore, cbc)
 			type query struct {
 				name string
 				opts []document.ResolutionOption
@@ -279,8 +287,28 @@ func checkC06(c *hx.Ctx) {
 				qs = qs[:9]
 			}
 			for k := range qs {
-				rm, err := proc.Resolve(u.Suffix, qs[k].opts...)
+				// what each query gives on a node of its own
+				rm, err := SUTResolve(pc, u.Suffix, pubOps, nil, qs[k].opts...)
 				qs[k].want = rmKey(rm, err)
+			}
+			// the shared node first answers the queries one after the other, newest first (nothing of an earlier answer may show
+			// in a later one), then all at once
+			for k := range qs {
+				var got string
+				func() {
+					defer func() {
+						if x := recover(); x != nil {
+							got = fmt.Sprintf("NO TERMINATION within the step budget (%v)", x)
+						}
+					}()
+					rm, err := proc.Resolve(u.Suffix, qs[k].opts...)
+					got = rmKey(rm, err)
+				}()
+				if got != qs[k].want {
+					c.Violation(fmt.Sprintf("C06 Resolve(%s) on a node that has answered other version queries for the DID before differs from the answer of a fresh node\n   fresh:  %s\n   shared: %s :: [%s]", qs[k].name, qs[k].want, got, histString(pubOps)),
+						map[string]interface{}{"suffix": u.Suffix, "history": replayOps(pubOps)})
+					return
+				}
 			}
 			var wg sync.WaitGroup
 			var mu sync.Mutex
@@ -289,6 +317,13 @@ func checkC06(c *hx.Ctx) {
 				wg.Add(1)
 				go func(g int) {
 					defer wg.Done()
+					defer func() {
+						if x := recover(); x != nil {
+							mu.Lock()
+							problem = fmt.Sprintf("Resolve(%s) did not terminate within its step budget while other callers were resolving other versions (%v)", qs[g].name, x)
+							mu.Unlock()
+						}
+					}()
 					for round := 0; round < 5; round++ {
 						rm, err := proc.Resolve(u.Suffix, qs[g].opts...)
 						if got := rmKey(rm, err); got != qs[g].want {
